@@ -11,44 +11,57 @@ RULE = ("fault enumeration around the real qbft.Run with the real round timers (
         "step validated against QBFT.tla, BoundedDecision / NoHonestUnjust evaluated by the trace spec; distinct = distinct traces")
 
 
-def cfg_of(t):
+def cfg_of(t, dev="FALSE", dev2="FALSE"):
     r = t[0]
-    return ("tt_n%d_i%d.cfg" % (r["n"], r["inst"]), TT_TMPL % {"N": r["n"], "Inst": r["inst"], "Dev": "FALSE"})
+    tag = ("e" if dev == "TRUE" else "") + ("i" if dev2 == "TRUE" else "")
+    return ("tt%s_n%d_i%d.cfg" % ("dev" + tag if tag else "", r["n"], r["inst"]),
+            TT_TMPL % {"N": r["n"], "Inst": r["inst"], "Dev": dev, "Dev2": dev2})
 
 
 def cfg_of_dev(t):
-    r = t[0]
-    return ("ttdev_n%d_i%d.cfg" % (r["n"], r["inst"]), TT_TMPL % {"N": r["n"], "Inst": r["inst"], "Dev": "TRUE"})
+    return cfg_of(t, dev="TRUE")
 
 
-PROBE = os.path.join(vlib.VERIF, "checks", "c04_probe_eager_tie.json")
+def cfg_of_dev_inc(t):
+    return cfg_of(t, dev2="TRUE")
+
+
+PROBES = [
+    # (finding id, stored script, MC cfg whose counterexample it is, timer, deviation cfg, control text)
+    ("C04-eager-timer-tie-desync", os.path.join(vlib.VERIF, "checks", "c04_probe_eager_tie.json"), "QBFTTimedMC_e4probe.cfg",
+     "eager", cfg_of_dev, "QBFTTimedMC_e4probe (eager timer, zero-latency ties, one crash) violates BoundedRounds: counterexample replayed on the code"),
+    ("C04-inc-timer-late-leader-desync", os.path.join(vlib.VERIF, "checks", "c04_probe_inc_late.json"), "QBFTTimedMC_i4lateprobe.cfg",
+     "inc", cfg_of_dev_inc, "QBFTTimedMC_i4lateprobe (increasing timer, 250 ms latencies, one silent member, round-1 leader 750 ms late) violates NoRunaway: counterexample replayed on the code"),
+]
 
 
 def timed_probe(o, regenerate):
-    """Known finding C04-eager-timer-tie-desync: a behaviour of the timed design model (QBFTTimed: eager double-linear
-    timer, one member crashing inside its round-1 PRE-PREPARE broadcast, zero-latency same-instant ties) in which the
-    members desynchronise through zero-length rounds and decide later than one leader rotation after the fault.  The
-    behaviour is a TLC counterexample (regenerated from the model in the thorough tier, stored otherwise), replayed step
-    by step on the real qbft.Run with the REAL round timers and validated by the trace spec."""
-    sched = json.load(open(PROBE))
-    if regenerate:
-        d = vlib.scratch(o.pid, qc.FAMILY)
-        dump = os.path.join(d, "probe.json")
-        r = vlib.tlc(o.pid, qc.FAMILY, "QBFTTimedMC", "QBFTTimedMC_e4probe.cfg", timeout=900, workers=1, sdir=d,
-                     extra_args=["-dumpTrace", "json", dump])
-        if r.violation and os.path.exists(dump):
-            sys.path.insert(0, os.path.join(vlib.VERIF, "tools"))
-            import tt2script
-            sched = tt2script.convert(dump, 4, 0, "eager")
-            sched[0]["horizon"] = 60000
-            o.selftests.append({"control": "QBFTTimedMC_e4probe (eager timer, zero-latency ties, one crash) violates BoundedRounds: counterexample replayed on the code",
-                                "rejected_as_required": True})
-        else:
-            o.notes.append("timed model no longer yields the eager-timer tie counterexample: " + r.summary())
-    vlib.conformance(o, qc.FAMILY, "QBFTTimedTrace", cfg_of, "c04", [sched], tag="probe",
-                     dev_cfgs=[("C04-eager-timer-tie-desync", cfg_of_dev)])
-    if not any(k == "C04-eager-timer-tie-desync" for k, _ in o.known):
-        log("note: the C04-eager-timer-tie-desync probe no longer reproduces (the finding may have been repaired)")
+    """Known findings C04-eager-timer-tie-desync and C04-inc-timer-late-leader-desync: behaviours of the timed design model
+    (QBFTTimed) in which the members decide later than one leader rotation after the last fault, inside the assumptions of
+    the property.  eager: one member crashes inside its round-1 PRE-PREPARE broadcast, zero-latency same-instant ties, the
+    members desynchronise through zero-length rounds.  inc: one member never starts, the round-1 leader starts 750 ms late,
+    every message takes 250 ms; the window in which all three remaining members are in the same round stays shorter than
+    the four message delays a decision needs until round 6.  Each behaviour is a TLC counterexample (regenerated from the
+    model in the thorough tier, stored otherwise), replayed step by step on the real qbft.Run with the REAL round timers and
+    validated by the trace spec: the strict cfg rejects it (BoundedDecision), the deviation cfg of that finding accepts it."""
+    for fid, path, mccfg, timer, devcfg, text in PROBES:
+        sched = json.load(open(path))
+        if regenerate:
+            d = vlib.scratch(o.pid, qc.FAMILY)
+            dump = os.path.join(d, "probe.json")
+            r = vlib.tlc(o.pid, qc.FAMILY, "QBFTTimedMC", mccfg, timeout=900, workers=1, sdir=d,
+                         extra_args=["-dumpTrace", "json", dump])
+            if r.violation and os.path.exists(dump):
+                sys.path.insert(0, os.path.join(vlib.VERIF, "tools"))
+                import tt2script
+                sched = tt2script.convert(dump, 4, 0, timer)
+                sched[0]["horizon"] = 60000
+                o.selftests.append({"control": text, "rejected_as_required": True})
+            else:
+                o.notes.append("timed model no longer yields the counterexample of %s: %s" % (fid, r.summary()))
+        vlib.conformance(o, qc.FAMILY, "QBFTTimedTrace", cfg_of, "c04", [sched], tag="probe_" + timer, dev_cfgs=[(fid, devcfg)])
+        if not any(k == fid for k, _ in o.known):
+            log("note: the %s probe no longer reproduces (the finding may have been repaired)" % fid)
 
 
 def scenario(n, inst, timer, offsets, lat, crashes, tie=0, inputs=None):
@@ -95,6 +108,24 @@ def sampled(seed, count, thorough):
             crashes.append({"p": p, "after": r.randint(0, 8), "to": [q for q in range(n) if q != p and r.random() < 0.5]})
         inputs = [1 + r.randint(0, 1) for _ in range(n)]
         out.append(scenario(n, inst, timer, offsets, lat, crashes, tie=r.randint(0, 1), inputs=inputs))
+    return out
+
+
+def directed_inc(seed, count):
+    """Around finding C04-inc-timer-late-leader-desync: increasing timer, f silent members, the round-1 leader (and possibly
+    others) starting late, the same high latency on every link."""
+    r = vlib.rng(seed, "c04/directed_inc")
+    out = []
+    for k in range(count):
+        n = r.choice([4, 4, 5, 6, 7])
+        f = (n - 1) // 3
+        inst = r.randrange(n)
+        ldr = (inst + 1) % n
+        offsets = [r.choice([0, 0, 250, 500]) for _ in range(n)]
+        offsets[ldr] = r.choice([500, 750, 750, 950])
+        silent = r.sample([p for p in range(n) if p != ldr], r.randint(0 if k % 4 == 3 else 1, f))
+        crashes = [{"p": p, "after": 0, "to": []} for p in silent]
+        out.append(scenario(n, inst, "inc", offsets, uniform_lat(n, r.choice([200, 250, 250, 300])), crashes, tie=r.randint(0, 1)))
     return out
 
 
@@ -151,8 +182,12 @@ def run(tier, seed):
         rr = vlib.rng(seed, "c04/pick")
         en = rr.sample(en, 360)
     sm = sampled(seed, 1500 if thorough else 140, thorough)
-    vlib.conformance(o, qc.FAMILY, "QBFTTimedTrace", cfg_of, "c04", en, tag="enum_n4", chunk=120)
-    vlib.conformance(o, qc.FAMILY, "QBFTTimedTrace", cfg_of, "c04", sm, tag="sampled", chunk=120)
+    devs = [("C04-inc-timer-late-leader-desync", cfg_of_dev_inc)]
+    vlib.conformance(o, qc.FAMILY, "QBFTTimedTrace", cfg_of, "c04", en, tag="enum_n4", chunk=120, dev_cfgs=devs)
+    vlib.conformance(o, qc.FAMILY, "QBFTTimedTrace", cfg_of, "c04", sm, tag="sampled", chunk=120, dev_cfgs=devs)
+    # around the inc-timer finding: late round-1 leader, f silent members, one high latency on every link
+    vlib.conformance(o, qc.FAMILY, "QBFTTimedTrace", cfg_of, "c04", directed_inc(seed, 400 if thorough else 60),
+                     tag="directed_inc", chunk=120, dev_cfgs=devs)
     tr = vlib.split_traces(vlib.read_ndjson(vlib.workdir(pid) + "/trace_sampled.ndjson"))
     vlib.binding_selftest(o, qc.FAMILY, "QBFTTimedTrace", cfg_of, tr, mutators())
     drs = [e["dround"] for t in tr for e in t if e.get("ev") == "Deliver" and e.get("rule") in ("QC", "JD")]
